@@ -8,8 +8,10 @@ import (
 	"context"
 	"fmt"
 	"net"
+	"os"
 	"runtime"
-	"runtime/metrics"
+	rmetrics "runtime/metrics"
+	"sort"
 	"strings"
 	"sync"
 	"sync/atomic"
@@ -17,9 +19,12 @@ import (
 
 	"github.com/pingcap/kvproto/pkg/kvrpcpb"
 	"github.com/pingcap/kvproto/pkg/tikvpb"
+	dto "github.com/prometheus/client_model/go"
 	"github.com/tikv/client-go/v2/internal/client"
+	"github.com/tikv/client-go/v2/metrics"
 	"github.com/tikv/client-go/v2/tikvrpc"
 	"github.com/tikv/client-go/v2/util/async"
+	"github.com/tikv/client-go/v2/verifh/c18/vctx"
 	"github.com/tikv/client-go/v2/verifrt/vtime"
 	"google.golang.org/grpc"
 	"google.golang.org/grpc/codes"
@@ -35,18 +40,22 @@ const dropMsg = "verif: stream dropped by the scripted server"
 
 // ---------- quiescence ----------
 
-var qs = []metrics.Sample{
+var qs = []rmetrics.Sample{
 	{Name: "/sched/goroutines/runnable:goroutines"},
 	{Name: "/sched/goroutines/not-in-go:goroutines"},
 }
 
 func metricsUsable() bool {
-	metrics.Read(qs)
-	return qs[0].Value.Kind() == metrics.KindUint64 && qs[1].Value.Kind() == metrics.KindUint64
+	rmetrics.Read(qs)
+	return qs[0].Value.Kind() == rmetrics.KindUint64 && qs[1].Value.Kind() == rmetrics.KindUint64
 }
 
 var quiesceSpins, stackAudits, auditMismatch int64
 var paranoid bool
+
+// patient: during teardown a spinning / panicking loop is being stopped; give it the whole budget.
+var patient bool
+var auditEvery int64 = 64
 
 // quiesce returns true when no goroutine other than the caller can make a step: with one P
 // the caller is the only running goroutine; runnable == 0 and not-in-go == 0 mean every other
@@ -59,15 +68,19 @@ var paranoid bool
 func quiesce() bool {
 	stable := 0
 	start := time.Now()
+	panicsAtStart := panicLogCount()
+	lastNoAvail := noAvailCount()
+	spinPasses := 0
+	spinDetected = false
 	for i := 0; ; i++ {
 		runtime.Gosched()
 		quiesceSpins++
-		metrics.Read(qs)
+		rmetrics.Read(qs)
 		if qs[0].Value.Uint64() == 0 && qs[1].Value.Uint64() == 0 {
 			stable++
 			if stable >= 3 {
 				stackAudits++
-				if paranoid || stackAudits%64 == 0 {
+				if paranoid || stackAudits%auditEvery == 0 {
 					if !stackQuiet() {
 						auditMismatch++
 						stable = 0
@@ -82,10 +95,72 @@ func quiesce() bool {
 				time.Sleep(20 * time.Microsecond) // let a system call (log write) finish
 			}
 		}
-		if i%1024 == 1023 && time.Since(start) > 5*time.Second {
-			return false
+		// Spin detection without a clock. Every return of Gosched above is one full pass of the run
+		// queue: each runnable goroutine has run once. If in 40 consecutive passes the client's "no
+		// available connection" counter moved every time, and the stack snapshots taken at every 10th
+		// of these passes all show the send loop as the only goroutine of the program that is not
+		// blocked, then it goes round getClientAndSend and nobody else will ever run to change what it sees.
+		if n := noAvailCount(); n > lastNoAvail && !patient {
+			spinPasses++
+			lastNoAvail = n
+			if spinPasses%10 == 0 {
+				if only, inSendLoop := busyInSendLoop(); !(only && inSendLoop) {
+					spinPasses = 0
+				} else if spinPasses >= 40 {
+					spinDetected = true
+					return false
+				}
+			}
+		} else {
+			spinPasses = 0
+			lastNoAvail = n
+		}
+		if i%64 == 63 {
+			// (a wait that is about to establish a spin gets more time: on a loaded machine a pass takes long)
+			if el := time.Since(start); el > 5*time.Second && (spinPasses < 10 || el > 40*time.Second) {
+				if os.Getenv("VERIF_C18_DEBUG") != "" {
+					only, in := busyInSendLoop()
+					fmt.Fprintf(os.Stderr, "quiesce timeout: iterations=%d runnable=%d notingo=%d spinPasses=%d only=%v insend=%v busy=%s\n", i, qs[0].Value.Uint64(), qs[1].Value.Uint64(), spinPasses, only, in, busyGoroutines())
+				}
+				return false
+			}
+			if !patient && panicLogCount() >= panicsAtStart+4 {
+				return false // a loop of the client panics and restarts again and again: reported by the caller
+			}
 		}
 	}
+}
+
+// spinDetected: the last quiesce() ended because the send loop spins (see there).
+var spinDetected bool
+
+// busyInSendLoop: a stack snapshot shows exactly one goroutine (besides the caller) that is not
+// blocked, and batchSendLoop is on its stack.
+func busyInSendLoop() (only bool, inSendLoop bool) {
+	buf := make([]byte, 1<<20)
+	n := runtime.Stack(buf, true)
+	busy := 0
+	first := true
+	for _, blk := range strings.Split(string(buf[:n]), "\n\n") {
+		if !strings.HasPrefix(blk, "goroutine ") {
+			continue
+		}
+		if first {
+			first = false
+			continue
+		}
+		hdr := blk
+		if i := strings.IndexByte(blk, '\n'); i >= 0 {
+			hdr = blk[:i]
+		}
+		if strings.Contains(hdr, "[runnable") || strings.Contains(hdr, "[running") || strings.Contains(hdr, "[syscall") {
+			busy++
+			if strings.Contains(blk, "(*batchConn).batchSendLoop") {
+				inSendLoop = true
+			}
+		}
+	}
+	return busy == 1, inSendLoop
 }
 
 // stackQuiet is the independent cross-check: a full stack snapshot in which no goroutine other
@@ -322,9 +397,34 @@ type caller struct {
 	// explorer's notes
 	cancelled bool
 	timedOut  bool
+	tainted   bool // reported as wrongly blocked earlier in this execution
 }
 
 func (c *caller) payload() string { return fmt.Sprintf("c%d", c.idx) }
+
+// dialBudget is internal/client.dialTimeout: the (now virtual) budget of waitConnReady.
+const dialBudget = 5 * time.Second
+
+// settle = quiescence, then let every pending dial budget elapse (a send or recv loop that waits
+// for a connection that will never be ready gives up after dialTimeout; the model treats that
+// budget as short compared with the distance between two environment events), until nothing moves.
+func (w *world) settle() bool {
+	for round := 0; ; round++ {
+		if !quiesce() {
+			return false
+		}
+		if w.ctl.pendingWith(dialBudget) == 0 {
+			return true
+		}
+		if round >= 16 {
+			return false
+		}
+		dialFires++
+		w.ctl.fireByDuration(dialBudget)
+	}
+}
+
+var dialFires int64
 
 func callerTimeout(i int) time.Duration { return time.Duration(1000+i) * time.Second }
 
@@ -362,6 +462,10 @@ func newWorld(cfg Config) *world {
 	w := &world{cfg: cfg, srv: &server{}, ctl: &vctl{timers: map[*vtimer]struct{}{}}, born: time.Now()}
 	w.ctx, w.stop = context.WithCancel(context.Background())
 	vtime.SetController(w.ctl)
+	ctl := w.ctl
+	vctx.SetStarter(func(d time.Duration, fire func()) func() bool {
+		return ctl.StartTimer(d, func(time.Time) { fire() }).Stop
+	})
 	w.lis = bufconn.Listen(1 << 20)
 	w.gs = grpc.NewServer()
 	tikvpb.RegisterTikvServer(w.gs, w.srv)
@@ -371,7 +475,6 @@ func newWorld(cfg Config) *world {
 	w.cli = client.NewRPCClient(client.WithGRPCDialOptions(
 		grpc.WithContextDialer(func(ctx context.Context, _ string) (net.Conn, error) { return lis.DialContext(ctx) }),
 	))
-	client.VerifSetDialTimeout(w.cli, 30*time.Minute) // no 5 s real-time dial budget inside an execution
 	for i := 0; i < cfg.Callers; i++ {
 		w.callers = append(w.callers, &caller{idx: i, timeout: callerTimeout(i)})
 	}
@@ -381,22 +484,84 @@ func newWorld(cfg Config) *world {
 // teardown releases everything of this execution; afterwards only goroutines blocked for ever
 // (none expected) could remain.
 func (w *world) teardown() bool {
-	if !w.closed {
-		w.closed = true
-		cli := w.cli
-		go func() { cli.Close() }()
-	}
+	patient = true
+	defer func() { patient = false }()
+	// Cancel the callers first, while the run loops of the async callers still serve: a cancelled async
+	// entry is completed through its run loop (context.AfterFunc -> callback.Schedule), and cancelled
+	// entries are dropped from the send loop's queue.
 	for _, c := range w.callers {
 		if c.cancel != nil {
 			c.cancel()
 		}
 	}
+	w.settle()
+	if !w.closed {
+		w.closed = true
+		cli := w.cli
+		go func() { cli.Close() }()
+		w.settle()
+	}
 	w.stop()
 	gs := w.gs
 	go func() { gs.Stop() }()
-	ok := quiesce()
+	quiesce()
 	w.lis.Close()
-	return ok && quiesce()
+	ok := quiesce() // only the final state counts: is anything of this execution still running?
+	if !ok {
+		poisoned = true
+		poisonedWhy = "still running after teardown: " + busyGoroutines()
+	}
+	return ok
+}
+
+// poisoned: a goroutine of a finished execution keeps running (could not be stopped); no further
+// execution in this process can reach quiescence, the worker process has to be replaced.
+var poisoned bool
+var poisonedWhy string
+
+func noAvailCount() float64 {
+	var m dto.Metric
+	if err := metrics.TiKVNoAvailableConnectionCounter.Write(&m); err != nil || m.Counter == nil {
+		return 0
+	}
+	return m.Counter.GetValue()
+}
+
+// busyGoroutines describes (function names only) the goroutines that are not blocked; diagnostics
+// for executions that do not become quiet.
+func busyGoroutines() string {
+	buf := make([]byte, 1<<20)
+	n := runtime.Stack(buf, true)
+	var out []string
+	first := true
+	for _, blk := range strings.Split(string(buf[:n]), "\n\n") {
+		if !strings.HasPrefix(blk, "goroutine ") {
+			continue
+		}
+		lines := strings.Split(blk, "\n")
+		if first {
+			first = false
+			continue
+		}
+		if strings.Contains(lines[0], "[runnable") || strings.Contains(lines[0], "[running") || strings.Contains(lines[0], "[syscall") {
+			fn := "?"
+			for _, l := range lines[1:] {
+				if !strings.HasPrefix(l, "\t") && !strings.HasPrefix(l, "runtime.") && !strings.HasPrefix(l, "created by") {
+					fn = l
+					if i := strings.IndexByte(fn, '('); i > 0 {
+						fn = fn[:i]
+					}
+					break
+				}
+			}
+			out = append(out, fn)
+		}
+	}
+	sort.Strings(out)
+	if len(out) > 4 {
+		out = out[:4]
+	}
+	return strings.Join(out, ",")
 }
 
 func (w *world) submit(c *caller, variant int) {
